@@ -17,7 +17,8 @@
 //	                                      change to o's own deposit address, out to an ordinary address, other to producer o2's deposit address
 //	pen <o> <eff> <p>                     IllegalProposalEvidence naming o's node key; eff = producer is Active (oracle value), p = configured penalty
 //	stake <k> <v>                         ExchangeVotes: real CheckTransactionOutput + SpecialContextCheck, then processed
-//	vote <k> <lock> <v,v,..> <bad>        bad = index of the first candidate that is not an active v2 producer, or n (oracle value);
+//	vote <k> <lock> <v,v,..> <bad> [shape] shape = contents of the payload (D DposV2 content, P empty CRCProposal content);
+//	                                      the payload's Validate runs first; bad = index of the first candidate that is not an active v2 producer, or n (oracle value);
 //	                                      Voting (DPoS v2 content), real context check; candidates = v2 producers 0..n-1
 //	retv <k> <v> [<ver> <other>]          ReturnVotes, real context check (V0: authorised by k, program of another key)
 //	renew <k> <referKey> <oldLock> <amount> <born> <newLock>   Voting (renewal content) of one detailed vote, real check
@@ -244,6 +245,9 @@ func errClass(e error) string {
 		{"DPoSV2 vote rights not enough", "notenough"},
 		{"invalid vote output payload", "cand"},
 		{"invalid return votes value", "small"},
+		{"duplicate vote type", "dup"},
+		{"invalid candidate votes", "zero"},
+		{"duplicate candidate", "dupcand"},
 		{"invalid transaction UTXO output", "value"},
 		{"not found in producer", "novote"},
 		{"votes not equal", "novote"},
@@ -663,9 +667,28 @@ func exec(t []string) string {
 		if bad != t[4] {
 			return "cand-mismatch"
 		}
-		pl := &payload.Voting{Contents: []payload.VotesContent{{VoteType: outputpayload.DposV2, VotesInfo: vi}}}
+		// shape of the payload: D = a DposV2 content with these votes, P = an (empty) CRCProposal content
+		shape := "D"
+		if len(t) >= 6 {
+			shape = t[5]
+		}
+		var contents []payload.VotesContent
+		for _, c := range shape {
+			if c == 'D' {
+				contents = append(contents, payload.VotesContent{VoteType: outputpayload.DposV2, VotesInfo: vi})
+			} else {
+				contents = append(contents, payload.VotesContent{VoteType: outputpayload.CRCProposal})
+			}
+		}
+		pl := &payload.Voting{Contents: contents}
 		tx := w.mk(ctypes.Voting, payload.VoteVersion, pl, nil, nil, []*program.Program{{Code: k.code, Parameter: []byte{0}}})
-		v := verdict(tx)
+		// the payload's own validation (CheckTransactionPayload -> Voting.Validate) runs before the context check
+		v := ""
+		if err := tx.CheckTransactionPayload(); err != nil {
+			v = "reject " + errClass(err)
+		} else {
+			v = verdict(tx)
+		}
 		if v == "accept" {
 			w.pending = append(w.pending, tx)
 			if os.Getenv("HX_DEBUG") != "" { // refer keys of the detailed votes this tx will create (for writing corpus files)
